@@ -26,6 +26,10 @@ type Entry struct {
 	Value    float64
 	HasLine  bool
 	HasValue bool
+	// RFCZoneMin: where the protocol can write the time as RFC3339 text, write it so, in the zone this many minutes
+	// east of UTC (RFCZone true)
+	RFCZone    bool
+	RFCZoneMin int
 }
 
 type Stream struct {
@@ -111,6 +115,7 @@ type LogOpts struct {
 	TTLLabel   bool // a third of the streams carry the reserved label __ttl_days__ (stripped by the writer, sets the row TTL)
 	Huge       bool // every stream is more than 1 MiB: the parser hands the body over in one portion per stream
 	LabelPool  []string
+	ZoneTwins  bool // the first stream gets pairs of entries two hours apart that read the same on the wall clock of two zones (…T10:00:00+02:00, …T10:00:00Z)
 	FarStream  bool // the second stream's entries lie in the year 2255 (legal; beyond what a ClickHouse Date holds)
 	Exact      int  // > 0: the first stream has exactly this many entries (threshold boundaries)
 	Pad        int  // every line is padded by this many bytes
@@ -216,6 +221,24 @@ func NewLogCase(r *rand.Rand, o LogOpts) LogCase {
 				en.Value = float64(r.Intn(1<<20)) + float64(r.Intn(4))*0.25
 			}
 			st.Entries = append(st.Entries, en)
+		}
+		if o.ZoneTwins && s == 0 {
+			var tw []Entry
+			for k, e := range st.Entries {
+				if k >= 3 {
+					tw = append(tw, e)
+					continue
+				}
+				e.RFCZone, e.RFCZoneMin = true, 120
+				t := e
+				t.TsNs += 7200e9 + int64(k+1)*int64(cp.tsUnit)
+				t.RFCZoneMin = 0
+				if t.HasLine {
+					t.Line = "L[" + fmt.Sprintf("%s-%d-tw%d", o.ID, s, k) + "]"
+				}
+				tw = append(tw, e, t)
+			}
+			st.Entries = tw
 		}
 		if o.Unordered && s%2 == 0 && len(st.Entries) > 1 {
 			ur := rand.New(rand.NewSource(int64(len(st.Entries))*7919 + int64(s)))
@@ -352,6 +375,9 @@ func Render(r *rand.Rand, proto_ string, c LogCase) Request {
 				ts := strconv.FormatInt(e.TsNs, 10)
 				if r.Intn(2) == 0 {
 					ts = time.Unix(0, e.TsNs).UTC().Format(time.RFC3339Nano)
+				}
+				if e.RFCZone {
+					ts = time.Unix(0, e.TsNs).In(time.FixedZone("", e.RFCZoneMin*60)).Format(time.RFC3339Nano)
 				}
 				key := "ts"
 				if r.Intn(2) == 0 {
@@ -490,6 +516,13 @@ func Render(r *rand.Rand, proto_ string, c LogCase) Request {
 					scA = append(scA, kv)
 				default:
 					recA = append(recA, kv)
+				}
+			}
+			// a third of the streams: the resource also carries every key the record and the scope carry, with another
+			// value (the more specific level wins: resource < scope < record)
+			if fnv32(s.SID)%3 == 0 {
+				for _, kv := range append(append([]*otlpCommon.KeyValue{}, recA...), scA...) {
+					resA = append(resA, &otlpCommon.KeyValue{Key: kv.Key, Value: &otlpCommon.AnyValue{Value: &otlpCommon.AnyValue_StringValue{StringValue: "shadowed"}}})
 				}
 			}
 			sl := &otlpLogs.ScopeLogs{Scope: &otlpCommon.InstrumentationScope{Name: "sc", Attributes: scA}}
